@@ -4,7 +4,7 @@ import json
 ID = "C11"
 HARNESS_TEST = "TestC11"
 COQ_MODEL = ["C11/Check.v"]
-COQ_PROOF_DEPS = ["C11/Proofs.v"]
+COQ_PROOF_DEPS = ["C11/Proofs.v", "C11/Examples.v"]
 COQ_OBLIG = ["C11/Property.v"]
 CASES_HEADER = "Require Import Nib.C11.Model Nib.C11.Spec Nib.C11.Check."
 CASE_TYPE = "case"
